@@ -55,7 +55,7 @@ def run_front(cases, timeout=900):
 
 def lexer_model(n, live=True):
     """TLC on Lexer.tla for all strings up to length n: returns (TlcResult, list of OBS dicts)"""
-    r = vlib.run_tlc("Lexer", "Lexer_N%d.cfg" % n, timeout=3000)
+    r = vlib.run_tlc("Lexer", "Lexer_N%d.cfg" % n, timeout=3000, extra=["-maxSetSize", "4000000"])
     if r.violation:
         raise vlib.Infra("Lexer.tla's own invariant failed (specification defect): " + r.violation)
     obs = [json.loads(l[4:]) for l in r.lines if l.startswith("OBS ")]
